@@ -309,3 +309,52 @@ func FuncName(f *ssa.Function) string {
 	}
 	return f.Name()
 }
+
+// fileOf returns the syntax file containing pos.
+func (p *Program) fileOf(pos token.Pos) *ast.File {
+	for _, pkg := range p.Pkgs {
+		for _, f := range pkg.Syntax {
+			if f.FileStart <= pos && pos <= f.FileEnd {
+				return f
+			}
+		}
+	}
+	return nil
+}
+
+// IsGenerated reports whether pos lies in a generated file ("Code generated ... DO NOT EDIT.").
+func (p *Program) IsGenerated(pos token.Pos) bool {
+	f := p.fileOf(pos)
+	return f != nil && ast.IsGenerated(f)
+}
+
+// IndexedExpr returns the source text of the operand X of the index or slice
+// expression whose '[' is at pos (the position go/ssa records for IndexAddr,
+// Index, Lookup and Slice instructions), or "".
+func (p *Program) IndexedExpr(pos token.Pos) string {
+	f := p.fileOf(pos)
+	if f == nil {
+		return ""
+	}
+	out := ""
+	ast.Inspect(f, func(n ast.Node) bool {
+		if n == nil || out != "" {
+			return false
+		}
+		if n.Pos() > pos || n.End() < pos {
+			return false
+		}
+		switch x := n.(type) {
+		case *ast.IndexExpr:
+			if x.Lbrack == pos {
+				out = types.ExprString(x.X)
+			}
+		case *ast.SliceExpr:
+			if x.Lbrack == pos {
+				out = types.ExprString(x.X)
+			}
+		}
+		return true
+	})
+	return out
+}
